@@ -21,7 +21,7 @@ import vlib
 MAX = 2 * 2 ** 20
 CORPUS = os.path.join(os.path.dirname(os.path.dirname(os.path.abspath(__file__))), 'corpus', 'C01')
 STALE_SIG = {'site': 'AbstractBlob.get_blob_writer.remove_writer',
-             'case': 'same peer re-opened before the callbacks of its finished writer ran'}
+             'case': 'remove_writer of a finished writer unregistered a different, still pending writer of the same peer'}
 
 
 def sha(b):
@@ -96,6 +96,8 @@ class Impl:
                 w = self.blob.get_blob_writer(*key)
                 self.writers.append(w)
                 res = ['new', len(self.writers) - 1]
+            elif name in ('write', 'closew') and op[1] >= len(self.writers):
+                res = 'badid'
             elif name == 'write':
                 self.writers[op[1]].write(bytes.fromhex(op[2]) if isinstance(op[2], str) else op[2])
             elif name == 'closew':
@@ -212,6 +214,8 @@ class Monitor:
         self.key = []                      # per writer: its key
         self.stale_reopen = []             # per writer: opened while an earlier writer of the same key was done
         #                                    and no loop iteration had run since (its remove_writer still queued)
+        self.orphan = []                   # per writer: seen pending but absent from blob.writers (only possible
+        #                                    when another writer's remove_writer deleted its key)
         self.last_iter = -1
         self.win_at = None                 # number of writers existing when the first writer got its result
         self.prev = None
@@ -248,6 +252,7 @@ class Monitor:
             self.fed.append(b'')
             self.done_at.append(None)
             self.stale_reopen.append(stale)
+            self.orphan.append(False)
         if name in ('tick', 'drain'):
             self.last_iter = i
         if name == 'write' and res != 'OSError' and op[1] < len(self.fed):
@@ -272,7 +277,10 @@ class Monitor:
                 if want[1] != ['ok', tot] and prev is not None and (
                         o['store'] != prev['store'] or o['io'] != prev['io'] or o['writing'] != prev['writing']):
                     self.fail(f'op {i}: a write that did not complete a correct copy changed what is stored')
+        registered = {wid for _, wid in o['map']}
         for j, (closed, f) in enumerate(o['writers']):
+            if f == 'pending' and j not in registered:
+                self.orphan[j] = True
             if f != 'pending' and self.done_at[j] is None:
                 self.done_at[j] = i
             if isinstance(f, list):
@@ -306,6 +314,23 @@ class Monitor:
             self.fail(f'op {i}: {op[0]} raised {res}')
         self.prev = o
 
+    def readable(self, blob, o):
+        """readable only if verified; what a reader gets is the named bytes (BlobBuffer: reading consumes)"""
+        if o is None:
+            return
+        if blob.is_readable() != o['verified']:
+            self.fail('is_readable() differs from get_is_verified()')
+        try:
+            with blob.reader_context() as r:
+                got = r.read()
+        except OSError:
+            got = None
+        if o['verified']:
+            if got is None or sha(got) != self.h or len(got) != self.length:
+                self.fail('a reader of the verified blob does not get the named bytes')
+        elif got is not None:
+            self.fail('the blob is readable although it is not verified')
+
     def finish(self, ops):
         """called when the case ended with drain, io, drain"""
         o = self.prev
@@ -319,7 +344,7 @@ class Monitor:
             for j, (closed, f) in enumerate(o['writers'][:self.win_at]):
                 if not closed or f == 'pending':
                     self.fail(f'writer {j} is still {"open" if not closed else "closed"}/{_short(f)} after another writer won',
-                              STALE_SIG if self.stale_reopen[j] else None)
+                              STALE_SIG if self.orphan[j] else None)
         else:
             if o['verified'] or o['store'] is not None or o['completed']:
                 self.fail('no writer delivered a correct copy, yet something was stored / verified / announced')
@@ -343,6 +368,8 @@ KINDS = ['correct', 'flip_first', 'flip_mid', 'flip_last', 'truncated', 'overlon
 
 def make_data(rng, kind, data):
     n = len(data)
+    if n == 0 and kind not in ('overlong', 'empty'):
+        return data
     if kind == 'correct':
         return data
     if kind in ('flip_first', 'flip_mid', 'flip_last'):
@@ -395,7 +422,7 @@ def gen_case(rng, run):
     """adaptive random schedule: executes on the implementation while generating; returns (case, impl_trace, monitor)"""
     kind = rng.choice(['file', 'buffer'])
     cb = rng.random() < 0.85
-    data = bytes(rng.randrange(256) for _ in range(pick_len(rng)))
+    data = bytes(rng.randrange(256) for _ in range(pick_len(rng) if rng.random() > 0.01 else 0))
     L = len(data)
     nw = rng.choice([1, 2, 2, 3, 3])
     plans = []
@@ -487,6 +514,7 @@ class Session:
 
     def result(self):
         self.mon.finish(self.ops)
+        self.mon.readable(self.impl.blob, self.trace[-1][1] if self.trace else None)
         case = {'kind': self.kind, 'cb': self.cb, 'data': self.data.hex(), 'hash': self.hash.hex(), 'ops': self.ops}
         return case, self.trace, self.mon
 
@@ -650,7 +678,7 @@ def main(run):
     for nm, case in load_corpus():
         c, trace, mon = run_fixed(case)
         judge(run, model, c, trace, mon, 'corpus')
-    n_rand = vlib.scaled(run.tier, 2500, 60000)
+    n_rand = vlib.scaled(run.tier, 9000, 200000)
     for _ in range(n_rand):
         case, trace, mon = gen_case(rng, run)
         judge(run, model, case, trace, mon, 'random')
